@@ -700,6 +700,12 @@ class Step(Node):
         # (which never fires delete triggers).
         self.db.execute("DELETE FROM step WHERE node = :node", {"node": self.i})
 
+        # A node that is created again with a new declaration (partial recycle) must not keep
+        # the environment variables of its previous declaration:
+        # `add_env_deps` only inserts the names of the new one,
+        # and `reset_for_rerun` only drops the dynamic ones.
+        self.db.execute("DELETE FROM env_var WHERE node = :node", {"node": self.i})
+
         # The `step_hash`/`step_outcome` satellite rows are untouched
         # by either `DELETE` or `INSERT`, since both only ever reference `node`, not `step`,
         # so a recycled step's stored hash remains available for
